@@ -61,6 +61,7 @@ AvlBagAfter(s, c) == Append(s.bag, [s |-> c.a.s, e |-> c.a.e, d |-> c.a.d])
 AvlExact(s, c, r) ==
     IF c.op = "insert" /\ r.has_shape = 1
     THEN r.shape = PreOrder(Ins(s.tree, c.a.s, c.a.e, c.a.d))
+    ELSE IF c.op = "copy" THEN r.shape = PreOrder(s.tree)          \* a copy has the shape of the original
     ELSE TRUE
 AvlAfter(s, c, r) ==
     CASE c.op = "insert" ->
@@ -68,6 +69,7 @@ AvlAfter(s, c, r) ==
                      ELSE ParseShape(r.shape)[1],               \* re-synchronise after a DRIFT
             bag  |-> AvlBagAfter(s, c)]
       [] c.op = "find_mut" -> [tree |-> BumpTree(s.tree, c.a.qs, c.a.qe), bag |-> Bump(s.bag, c.a.qs, c.a.qe)]
+      [] c.op = "copy" -> [s EXCEPT !.tree = IF AvlExact(s, c, r) THEN @ ELSE ParseShape(r.shape)[1]]
       [] OTHER -> s
 AvlExplains(s, c, r) ==
     CASE c.op = "new" -> r.st = "ok"
@@ -82,12 +84,21 @@ AvlExplains(s, c, r) ==
                  /\ BagEq([i \in 1..Len(r.shape) |-> <<r.shape[i][1], r.shape[i][2], r.shape[i][3]>>],
                           AvlBagAfter(s, c)))                            \* holds exactly the inserted entries
       [] c.op = "finds" ->
-           /\ r.st = "ok" /\ Len(r.res) = Len(c.a.qs)
+           /\ r.st = "ok" /\ Len(r.res) = Len(c.a.qs) /\ Len(r.counts) = Len(c.a.qs) /\ Len(r.fork) = Len(c.a.qs)
            /\ \A i \in 1..Len(c.a.qs) :
-                 BagEq(r.res[i], Overlaps(s.bag, c.a.qs[i][1], c.a.qs[i][2]))
+                 LET want == Overlaps(s.bag, c.a.qs[i][1], c.a.qs[i][2]) IN
+                 /\ BagEq(r.res[i], want)
+                 /\ r.counts[i] = Len(want)            \* Iterator::count on the query iterator
+                 /\ BagEq(r.fork[i], want)             \* a clone of the iterator taken after its first item
       [] c.op = "find_mut" ->
            /\ r.st = "ok"
            /\ BagEq(r.res, Overlaps(s.bag, c.a.qs, c.a.qe))
+           /\ r.cnt = Len(r.res)
+      [] c.op = "copy" ->                                \* clone / serde round trip / clone_from: same tree
+           /\ r.st = "ok"
+           /\ LET ps == ParseShape(r.shape) IN
+              /\ ps[3] /\ ps[2] = << >> /\ TrueBalanced(ps[1]) /\ AvlPruneSafe(ps[1])
+              /\ BagEq([i \in 1..Len(r.shape) |-> <<r.shape[i][1], r.shape[i][2], r.shape[i][3]>>], s.bag)
       [] OTHER -> FALSE
 
 \* ---------------------------------------------------------------- iitree
@@ -120,6 +131,7 @@ IIExplains(s, c, r) ==
                                                          d |-> r.entries[i][3], mx |-> r.entries[i][4]]],
                           r.ml, RealLL)                                   \* sorted; no query can miss an entry
            /\ (Len(r.entries) > 0 => (Pow2i(r.ml) <= Len(r.entries) /\ Pow2i(r.ml + 1) > Len(r.entries)))
+      [] c.op = "copy" -> r.st = "ok"                    \* clone / serde / clone_from: same tree, same indexed flag
       [] c.op = "finds" ->
            IF ~s.indexed THEN r.st = "panic"             \* querying an un-indexed tree is refused
            ELSE /\ r.st = "ok" /\ Len(r.res) = Len(c.a.qs)
@@ -141,6 +153,8 @@ AnExplains(s, c, r) ==
               IN  /\ Len(r.res) = Len(want)
                   /\ ToSet(r.res) = {<<x.s, x.e, x.d, x.ref>> : x \in ToSet(want)}
                   /\ Cardinality(ToSet(r.res)) = Len(r.res)
+                  /\ r.cnt = Len(want)
+      [] c.op = "copy" -> r.st = "ok"
       [] OTHER -> FALSE
 
 \* ------------------------------------------------------- big (closed form)
